@@ -12,7 +12,10 @@ func init() {
 	Scenarios["C10"] = scenC10
 }
 
-var c10Phases = []string{"during-init", "runtime-working", "after-response", "during-timeout-reset", "during-failure-reset", "lock-window"}
+var c10Phases = []string{"during-init", "runtime-working", "after-response", "during-timeout-reset", "during-failure-reset", "lock-window", "reset-tail"}
+
+// lock sites on the tail of rapidcore.Server.Reset, after the sandbox was reset: state clearing and the hand-back
+var c10ResetTailSites = []string{"Server).Release<go.amzn.com/lambda/rapidcore.(*Server).Reset", "Server).Release<go.amzn.com/lambda/rapidcore.(*Server).Clear", "endReset", "setRapidPhase<go.amzn.com/lambda/rapidcore.(*Server).Reset", "setRuntimeState<go.amzn.com/lambda/rapidcore.(*Server).Reset", "Server).Clear"}
 
 var c10HoldSites = []string{"SetInvokeTimeout", "setNewInvokeContext", "setReplyStream", "getInitFailuresChan", "setRapidPhase", "setInitFailuresChan", "Server).Release", "HandleInvoke", "GetInvokeTimeout"}
 
@@ -31,13 +34,19 @@ func scenC10(r *Run, job *Job) {
 		holdSite = c10HoldSites[t.Draw(len(c10HoldSites))]
 		r.AddHold(holdSite, 1+t.Draw(3), 2+t.Draw(3))
 	}
+	resetTailMode := ""
+	if c10Phases[phase] == "reset-tail" {
+		holdSite = c10ResetTailSites[t.Draw(len(c10ResetTailSites))]
+		r.AddHold(holdSite, 1+t.Draw(2), 2+t.Draw(3))
+		resetTailMode = []string{"stall", "exit"}[t.Draw(2)]
+	}
 	if t.Chance(1, 3) {
 		r.ReorderNum, r.ReorderDen = 1, 4
 	}
 	w := r.NewWorld(WorldCfg{TimeoutSec: timeoutSec, ExtFiles: ExtFiles(exts)}, job.Seed)
 	e := w.NewEngine()
 	e.Bound = time.Duration(4*(timeoutSec+8)) * time.Second
-	mode := map[string]string{"during-timeout-reset": "stall", "during-failure-reset": "exit"}[c10Phases[phase]]
+	mode := map[string]string{"during-timeout-reset": "stall", "during-failure-reset": "exit", "reset-tail": resetTailMode}[c10Phases[phase]]
 	e.BehavFor = BehavForExts(exts, func(p *Proc, b *Behav) {
 		if p.IsRT {
 			b.PerInv = func(inv *Invocation) *InvBehav {
@@ -84,6 +93,8 @@ func scenC10(r *Run, job *Job) {
 			return false
 		case "lock-window":
 			return r.HeldNow()
+		case "reset-tail":
+			return r.HeldNow()
 		}
 		return false
 	}
@@ -116,7 +127,7 @@ func scenC10(r *Run, job *Job) {
 			planned = append(planned, inv)
 		}
 	}
-	lockWindow := c10Phases[phase] == "lock-window"
+	lockWindow := c10Phases[phase] == "lock-window" || c10Phases[phase] == "reset-tail"
 	served := func(inv *Invocation) bool {
 		want := []byte(fmt.Sprintf("resp-%d:", inv.N) + string(inv.Payload))
 		return inv.Dispatched && inv.Call.Is(200) && bytes.Equal(inv.Call.Body, want)
@@ -194,6 +205,26 @@ func (r *Run) holdEverFired() bool {
 // completionStep is the step at which an invocation stopped being in flight: for a successful one the step at
 // which the last party (runtime, INVOKE subscribers) returned to next, otherwise the step of its outcome.
 func completionStep(w *World, e *Engine, inv *Invocation) int {
+	if inv.Dispatched && inv.AnswerKind == "" && inv.Call.Done {
+		// ended by a reset (timeout, crash): in flight until the processes that served it are gone and reported.
+		// (The front end answers the caller up to 100 ms later; a reservation cannot succeed before the reset has
+		// handed the server back, so a later dispatch in between is not an overlap.)
+		gen, last := genServing(w, e, inv), 0
+		for _, p := range w.Sup.All() {
+			if p.Gen == gen {
+				if !p.EventSent {
+					return inv.Call.EndStep
+				}
+				if p.EventStep > last {
+					last = p.EventStep
+				}
+			}
+		}
+		if last > 0 && last < inv.Call.EndStep {
+			return last
+		}
+		return inv.Call.EndStep
+	}
 	if !inv.Dispatched || inv.AnswerKind == "" {
 		if inv.Call.Done {
 			return inv.Call.EndStep
